@@ -234,3 +234,20 @@ Proof.
   - reflexivity.
   - reflexivity.
 Qed.
+
+(* C04 proper: a stream the spec accepts to the end is delivered completely and
+   ends with a clean io.EOF *)
+Theorem reader_valid_stream : forall c fs s bufs fuel,
+  wf_cfg c -> Forall wf_sframe fs -> wf_src s -> tl s = TEOF -> flat s = wire fs ->
+  (2 * length (wire fs) + 4 * length fs + 8 <= fuel)%nat ->
+  sr_out (spec_run c 0 None [] fs) = OClean ->
+  let d := drive fuel bufs (new_reader s (c_state c) false (c_check_utf8 c) (c_max c) (c_ext c) CbReadAll) in
+  dr_err d = RIo EEOF /\ evs_match (sr_events (spec_run c 0 None [] fs)) (dr_events d) = true.
+Proof.
+  intros c fs s bufs fuel Hc Hfs Hw Ht Hfl Hfuel Hout. cbv zeta.
+  pose proof (reader_meets_spec c fs s bufs fuel Hc Hfs Hw Ht Hfl Hfuel) as H. cbv zeta in H.
+  unfold reader_monitor, expected_events in H. rewrite Hout in H.
+  apply andb_true_iff in H. destruct H as [H _]. apply andb_true_iff in H. destruct H as [H1 H2].
+  split; [|exact H1]. unfold err_matches in H2.
+  destruct (dr_err _) as [[| |]| | | | | | | |]; try discriminate. reflexivity.
+Qed.
